@@ -1,5 +1,6 @@
 """C sample of C12: both schemas of a rewrite pair encoded by their generated C (IR, -O0) on
-corresponding symbolic leaves; bytes must be equal."""
+corresponding symbolic leaves; bytes must be equal.  Modes: the runtime-library code, and (for pairs without extensible
+marks) the `-O` generator's little- and big-endian paths; a counterexample is replayed through gcc-built code."""
 from __future__ import annotations
 
 from typing import Any, Dict, List
@@ -9,8 +10,8 @@ import z3
 from .. import llsym, pysym
 from ..common import Inconclusive, Scratch
 from ..compile import CompileError
-from ..crt import CBuild, CMsg
-from ..families import RwCase
+from ..crt import CBuild, CMsg, native_encode, pack_struct
+from ..families import RwCase, is_extensible_case
 from ..llsym import Ptr
 from ..pyrt import sym_leaves
 from ..pysym import Engine
@@ -18,27 +19,45 @@ from .cenc import fill_struct
 from .pyenc import new_result
 
 
-def select(rw: List[RwCase], q: bool) -> List[RwCase]:
-    return rw[::(20 if q else 8)]
+MODES = {"std": dict(optimize=False, endian="both"), "O-little": dict(optimize=True, endian="little"), "O-big": dict(optimize=True, endian="big")}
 
 
-def work(rc: RwCase) -> Dict[str, Any]:
+def select(rw: List[RwCase], q: bool) -> List[Any]:
+    jobs: List[Any] = [(rc, "std") for rc in rw[::(20 if q else 8)]]
+    trad = [rc for rc in rw if not is_extensible_case(rc.a) and not is_extensible_case(rc.b)]
+    # the -O generator looks at declared types itself (aliases, enums, nesting): every single alias / nest / hoist /
+    # import rewrite of a traditional base, plus a slice of the rest
+    alias = [rc for rc in trad if len(rc.rewrites) == 1 and rc.rewrites[0] in ("alias_intro", "alias_inline")]
+    typed = [rc for rc in trad if len(rc.rewrites) == 1 and rc.rewrites[0] in ("nest", "hoist", "to_import", "rename_shadow")]
+    rest = [rc for rc in trad if rc not in typed and rc not in alias][::(25 if q else 6)]
+    for rc in alias:
+        jobs += [(rc, "O-big"), (rc, "O-little")]
+    for i, rc in enumerate(typed + rest):
+        if q:
+            jobs.append((rc, "O-big" if i % 2 == 0 else "O-little"))
+        else:
+            jobs += [(rc, "O-big"), (rc, "O-little")]
+    return jobs
+
+
+def work(job: Any) -> Dict[str, Any]:
+    rc, mode = job
     res = new_result(rc.a)
-    res["case"] = rc.name
+    res["case"] = f"{rc.name}[{mode}]"
     rc.b.style = rc.style_b  # type: ignore
     with Scratch() as sc:
         try:
-            ca, cb = CBuild(rc.a, sc.dir, tag="_a"), CBuild(rc.b, sc.dir, tag="_b")
+            ca, cb = CBuild(rc.a, sc.dir, tag="_a", **MODES[mode]), CBuild(rc.b, sc.dir, tag="_b", **MODES[mode])
             ma, ka = ca.modules("O0", "x86_64", msgs=[x for x, _ in rc.pairs])
             mb, kb = cb.modules("O0", "x86_64", msgs=[y for _, y in rc.pairs])
         except (CompileError, Inconclusive) as e:
-            res["inconclusive"].append(f"{rc.name}: {e}")
+            res["inconclusive"].append(f"{res['case']}: {e}")
             return res
         for i, ((msa, cha), (msb, chb)) in enumerate(rc.pairs):
             A, B = CMsg(ma, ka, i, msa, cha), CMsg(mb, kb, i, msb, chb)
             la, lb = A.lay.leaves(), B.lay.leaves()
             if [(l.kind, l.n, l.off) for l in la] != [(l.kind, l.n, l.off) for l in lb]:
-                res["inconclusive"].append(f"{rc.name}: family bug")
+                res["inconclusive"].append(f"{res['case']}: family bug")
                 continue
             terms, _p, assumes = sym_leaves(A.lay)
             tb = {y.path: terms[x.path] for x, y in zip(la, lb)}
@@ -68,13 +87,95 @@ def work(rc: RwCase) -> Dict[str, Any]:
                     res["obligations"] += len(conj)
                     r, model = p.holds(z3.And(*conj))
                     if r == "sat":
-                        res["violations"].append({"what": f"{rc.name} {A.name}: C bytes differ between the schema and its rewrite", "payload": {"kind": "c-rw", "pair": rc.name, "files_a": rc.a.proto.files(), "files_b": rc.b.proto.files(rc.style_b)}, "confirmed": False, "info": {"kind": "rw"}})
+                        va = {l.path: _signed(_ev(model, terms[l.path]), l) for l in la}
+                        vb = {y.path: va[x.path] for x, y in zip(la, lb)}
+                        try:
+                            na, _ = native_encode(ca.shared_object("O2"), "Encode" + A.name, pack_struct(A, va, fill=0x5A), A.lay.nbytes)
+                            nb, _ = native_encode(cb.shared_object("O2"), "Encode" + B.name, pack_struct(B, vb, fill=0x5A), B.lay.nbytes)
+                        except Inconclusive as e:
+                            res["inconclusive"].append(f"{res['case']}: {e}")
+                            continue
+                        if na == nb:
+                            res["inconclusive"].append(f"{res['case']} {A.name}: bytes differ in the symbolic run but not natively for {list(va.items())[:4]}")
+                            continue
+                        res["violations"].append({"what": f"{res['case']} {A.name}: C bytes differ between the schema and its rewrite {rc.rewrites}: native {na.hex()} vs {nb.hex()} for {[(l.pname(), va[l.path]) for l in la][:6]}",
+                                                  "payload": {"kind": "c-rw", "pair": rc.name, "mode": mode, "message_a": A.name, "message_b": B.name, "values": [[list(map(list, l.path)), va[l.path]] for l in la], "files_a": rc.a.proto.files(), "files_b": rc.b.proto.files(rc.style_b),
+                                                              "main_a": rc.a.proto.fname(), "main_b": rc.b.proto.fname(), "struct_a": pack_struct(A, va, fill=0x5A).hex(), "struct_b": pack_struct(B, vb, fill=0x5A).hex(), "nbytes": A.lay.nbytes},
+                                                  "confirmed": True, "info": {"kind": "rw", "key": "c-rw"}})
                     elif r == "unknown":
                         res["inconclusive"].append(f"{rc.name}: unknown")
                     elif len(res["samples"]) < 1:
-                        res["samples"].append({"pair": rc.name, "message": A.name, "verdict": "unsat (C, -O0)"})
+                        res["samples"].append({"pair": rc.name, "mode": mode, "message": A.name, "verdict": "unsat (C IR, -O0)"})
             except Inconclusive as e:
-                res["inconclusive"].append(f"{rc.name}: {e}")
+                # e.g. undefined behaviour met by the interpreter: not a verdict -- but gcc-built code can still be compared
+                # on boundary values; a difference there is a confirmed violation, no difference leaves it inconclusive
+                import random
+
+                from .pycommon import extreme_values
+
+                diff = None
+                try:
+                    for va in extreme_values(A.lay, random.Random(7), 2):
+                        vb = {y.path: va[x.path] for x, y in zip(la, lb)}
+                        na, _ = native_encode(ca.shared_object("O2"), "Encode" + A.name, pack_struct(A, va, fill=0x5A), A.lay.nbytes)
+                        nb, _ = native_encode(cb.shared_object("O2"), "Encode" + B.name, pack_struct(B, vb, fill=0x5A), B.lay.nbytes)
+                        if na != nb:
+                            diff = (va, na, nb)
+                            break
+                except Inconclusive:
+                    pass
+                if diff:
+                    va, na, nb = diff
+                    res["violations"].append({"what": f"{res['case']} {A.name}: C bytes differ between the schema and its rewrite {rc.rewrites}: native {na.hex()} vs {nb.hex()} for {[(l.pname(), va[l.path]) for l in la][:6]} (symbolic run stopped: {e})",
+                                              "payload": {"kind": "c-rw", "pair": rc.name, "mode": mode, "message_a": A.name, "message_b": B.name, "values": [[list(map(list, l.path)), va[l.path]] for l in la], "files_a": rc.a.proto.files(), "files_b": rc.b.proto.files(rc.style_b),
+                                                              "main_a": rc.a.proto.fname(), "main_b": rc.b.proto.fname(), "struct_a": pack_struct(A, va, fill=0x5A).hex(), "struct_b": pack_struct(B, vb, fill=0x5A).hex(), "nbytes": A.lay.nbytes},
+                                              "confirmed": True, "info": {"kind": "rw", "key": "c-rw"}})
+                else:
+                    res["inconclusive"].append(f"{res['case']}: {e}")
             for k in ("paths", "queries", "unsat", "sat", "unknown"):
                 res[k] += eng.stats.get(k, 0)
     return res
+
+
+def _ev(model: Any, t: Any) -> int:
+    if isinstance(t, int):
+        return t
+    e = getattr(t, "e", t)
+    v = model.eval(e, model_completion=True)
+    return v.as_long()
+
+
+def _signed(v: int, l: Any) -> int:
+    return v - (1 << l.n) if l.kind == "int" and v >> (l.n - 1) else v
+
+
+def replay(p: Dict[str, Any]) -> int:
+    """both schemas through the real command line and gcc; the recorded struct images through Encode; compare the bytes"""
+    import os
+
+    from ..common import REPO, run
+    from ..compile import compile_cli, write_files
+
+    flags = {"std": [], "O-little": ["-O", "--endian", "little"], "O-big": ["-O", "--endian", "big"]}[p.get("mode", "std")]
+    outs = []
+    with Scratch() as sc:
+        for side in ("a", "b"):
+            src, gen = sc.path("src_" + side), sc.path("gen_" + side)
+            os.makedirs(src)
+            write_files(p["files_" + side], src)
+            for fn in p["files_" + side]:
+                r = compile_cli(src, fn, "c", gen, ["-q"] + flags)
+                if r.returncode:
+                    print(f"side {side}: the compiler rejects {fn}: {r.stderr[-300:]}")
+                    return 1
+            so = sc.path(side + ".so")
+            cs = [os.path.join(gen, f) for f in os.listdir(gen) if f.endswith(".c")]
+            g = run(["gcc", "-shared", "-fPIC", "-O2", "-w", "-I", gen, "-I", os.path.join(REPO, "lib", "c")] + cs + [os.path.join(REPO, "lib", "c", "bitproto.c"), "-o", so])
+            if g.returncode:
+                print(f"side {side}: gcc rejects the generated C: {g.stderr[-300:]}")
+                return 1
+            got, _ = native_encode(so, "Encode" + p["message_" + side], bytes.fromhex(p["struct_" + side]), p["nbytes"])
+            outs.append(got.hex())
+    print(f"schema: {outs[0]}\nrewrite: {outs[1]}")
+    print("FAILS: bytes differ" if outs[0] != outs[1] else "passes: holds on this input now")
+    return 1 if outs[0] != outs[1] else 0
